@@ -1,12 +1,16 @@
 (* Extraction of the executable models to OCaml.  ExtrOcamlBasic only: N / positive / nat / ascii stay the
    extracted inductive types; the development adds no Extract Constant / Extract Inductive of its own. *)
 Require Import ExtrOcamlBasic.
-From MDK Require Import Base.Prelude Base.BSet Codec.Varint Codec.TlsVec Codec.Utf8 Codec.GroupDataExt Base.AMap Store.Contract Mdk.Engine Conc.Keyring Mdk.Welcome.
+From MDK Require Import Base.Prelude Base.BSet Codec.Varint Codec.TlsVec Codec.Utf8 Codec.GroupDataExt Base.AMap Store.Contract Mdk.Engine Conc.Keyring Mdk.Welcome Codec.MediaCtx Mdk.Media Codec.EventCodec Crash.StmtProg.
 Extraction Language OCaml.
+Extraction Blacklist String.
 Separate Extraction
   enc_len dec_len utf8_valid
   GroupDataExt.serialize GroupDataExt.deserialize GroupDataExt.wf GroupDataExt.roundtrip_ok
   Contract.empty Contract.step Contract.run
-  Engine.init_client Engine.deliver Engine.committed Engine.merge_pending Engine.clear_pending Engine.sent Engine.sent_as Engine.leave_created AMap.aget
+  Engine.init_client Engine.deliver Engine.committed Engine.merge_pending Engine.clear_pending Engine.sent Engine.sent_as Engine.leave_created Engine.restart AMap.aget
   Keyring.open_db Keyring.mode_after Keyring.created_dir_modes
-  Welcome.process_welcome Welcome.accept_welcome Welcome.decline_welcome Welcome.note_message Welcome.empty_st.
+  Welcome.process_welcome Welcome.accept_welcome Welcome.decline_welcome Welcome.note_message Welcome.empty_st
+  MediaCtx.mctx MediaCtx.mctx_guards MediaCtx.validate_mime MediaCtx.filename_valid Media.scenario_ok Media.same_file_twice
+  EventCodec.b64_encode EventCodec.b64_decode EventCodec.hex_encode EventCodec.hex_decode EventCodec.kp_verdict EventCodec.welcome_verdict
+  StmtProg.show_prog StmtProg.smallest_failing_k StmtProg.first_guard_rewrite.
